@@ -1485,6 +1485,93 @@ static void do_textwrite(CMR* cmr)
   free(buf);
 }
 
+/* ---------- C10: verdict relations ---------- */
+
+static bool chr_is_binary(CMR_CHRMAT* M)
+{
+  for (size_t e = 0; e < M->numNonzeros; ++e)
+    if (M->entryValues[e] != 1)
+      return false;
+  return true;
+}
+
+static bool chr_is_ternary(CMR_CHRMAT* M)
+{
+  for (size_t e = 0; e < M->numNonzeros; ++e)
+    if (M->entryValues[e] != 1 && M->entryValues[e] != -1)
+      return false;
+  return true;
+}
+
+/* the ten verdicts: TU REG GRA COG NET CONET SPT SPB BAL CAM; 2 = not applicable / undetermined / error */
+static void o_verdicts(CMR* cmr, CMR_CHRMAT* M, int strategy)
+{
+  bool bin = chr_is_binary(M), tern = chr_is_ternary(M);
+  unsigned char f;
+  CMR_TU_PARAMS tup;
+  CMRtuParamsInit(&tup);
+  tup.seymour.decomposeStrategy = strategy;
+  CMR_REGULAR_PARAMS rp;
+  CMRregularParamsInit(&rp);
+  rp.seymour.decomposeStrategy = strategy;
+  f = 2; if (CMRtuTest(cmr, M, (bool*) &f, NULL, NULL, &tup, NULL, DBL_MAX)) f = 2; oi(f);
+  f = 2; if (bin) { if (CMRregularTest(cmr, M, (bool*) &f, NULL, NULL, &rp, NULL, DBL_MAX)) f = 2; } oi(f);
+  f = 2; if (bin) { if (CMRgraphicTestMatrix(cmr, M, (bool*) &f, NULL, NULL, NULL, NULL, NULL, DBL_MAX)) f = 2; } oi(f);
+  f = 2; if (bin) { if (CMRgraphicTestTranspose(cmr, M, (bool*) &f, NULL, NULL, NULL, NULL, NULL, DBL_MAX)) f = 2; } oi(f);
+  f = 2; if (tern) { if (CMRnetworkTestMatrix(cmr, M, (bool*) &f, NULL, NULL, NULL, NULL, NULL, NULL, NULL, DBL_MAX)) f = 2; } oi(f);
+  f = 2; if (tern) { if (CMRnetworkTestTranspose(cmr, M, (bool*) &f, NULL, NULL, NULL, NULL, NULL, NULL, NULL, DBL_MAX)) f = 2; } oi(f);
+  f = 2; if (tern) { if (CMRspTestTernary(cmr, M, (bool*) &f, NULL, NULL, NULL, NULL, NULL, DBL_MAX)) f = 2; } oi(f);
+  f = 2;
+  if (bin)
+  {
+    CMR_SP_REDUCTION* reds = malloc((M->numRows + M->numColumns + 1) * sizeof(CMR_SP_REDUCTION));
+    size_t nr = 0;
+    if (CMRspTestBinary(cmr, M, (bool*) &f, reds, &nr, NULL, NULL, NULL, DBL_MAX))
+      f = 2;
+    free(reds);
+  }
+  oi(f);
+  /* the balancedness test enumerates submatrices (exponential): only on small shapes */
+  size_t small = M->numRows < M->numColumns ? M->numRows : M->numColumns;
+  size_t large = M->numRows < M->numColumns ? M->numColumns : M->numRows;
+  f = 2; if (tern && small <= 7 && large <= 12) { if (CMRbalancedTest(cmr, M, (bool*) &f, NULL, NULL, NULL, DBL_MAX)) f = 2; } oi(f);
+  f = 2; if (tern) { if (CMRcamionTestSigns(cmr, M, (bool*) &f, NULL, NULL, DBL_MAX)) f = 2; } oi(f);
+}
+
+/* case: strategy kind p1(list) p2(list) M M'    record: kind p1 p2 M M' v(10) v'(10) */
+static void do_rel(CMR* cmr)
+{
+  int strategy = (int) nx();
+  long long kind = nx();
+  size_t k1 = nx();
+  long long* p1 = malloc((k1 + 1) * sizeof(long long));
+  for (size_t i = 0; i < k1; ++i)
+    p1[i] = nx();
+  size_t k2 = nx();
+  long long* p2 = malloc((k2 + 1) * sizeof(long long));
+  for (size_t i = 0; i < k2; ++i)
+    p2[i] = nx();
+  CMR_CHRMAT* M = read_chrmat(cmr);
+  CMR_CHRMAT* N = read_chrmat(cmr);
+  rec_begin();
+  oi(kind);
+  osz(k1);
+  for (size_t i = 0; i < k1; ++i)
+    oi(p1[i]);
+  osz(k2);
+  for (size_t i = 0; i < k2; ++i)
+    oi(p2[i]);
+  o_chr_dense(M);
+  o_chr_dense(N);
+  o_verdicts(cmr, M, strategy);
+  o_verdicts(cmr, N, strategy);
+  rec_end();
+  free(p1);
+  free(p2);
+  CMRchrmatFree(cmr, &M);
+  CMRchrmatFree(cmr, &N);
+}
+
 /* ---------- dispatch ---------- */
 
 typedef void (*handler)(CMR*);
@@ -1509,6 +1596,7 @@ static struct
   {"kdecomp", do_kdecomp},
   {"tree", do_tree},
   {"textread", do_textread},
+  {"rel", do_rel},
   {"textwrite", do_textwrite},
   {NULL, NULL}
 };
